@@ -11,9 +11,15 @@ Three kinds of cases, all decided inside Coq (Corr/C20.v):
           Observed: backing buffer of A before/after, bytes written by A and by B.
   site  : the effect program of one in-place-writing site of the anchored code, extracted from the CURRENT source
           by the small AST extractor below (fail-closed: anything it cannot classify becomes an alias of every
-          parameter).  Coq decides `safe_prog` on the extracted program (spec) and compares it with the program
-          that translate/gen_c20.py generated from the same tree into Gen/C20.v in this run (model), which
-          Bridge/C20.v proves safe (C20_source_tie).  Nothing is pinned: an edit of the source moves both.
+          parameter).  Coq decides `safe_prog` on the extracted program (spec) and compares it with a second
+          extraction made through the translator's code path in the main process, required safe (model).  The
+          programs translate/gen_c20.py writes into Gen/C20.v from the same tree are proved safe in Bridge/C20.v
+          inside the build lock (C20_source_tie).  Nothing is pinned: an edit of the source moves all of them.
+  chain : a lazily read chunk, then a public operation that leaves hidden state (replace, attribute assignment,
+          field access, indexing, a write, get_data_object); the RESULT T is snapshotted (reachable buffers, logical
+          content, the bytes it writes), handed twice to a table-taking function (bnp.replace, the
+          apply_to_npdataclass-wrapped sequence functions, interval arithmetic, genome intervals, table methods, a
+          write) and compared.
 """
 import ast
 import inspect
@@ -25,7 +31,7 @@ import tempfile
 from harness.lib import hx, zl, cz, cbool, clist
 
 ID = 'C20'
-RULE = ('registry of 98 public functions x generated arguments (text numbers with -, +, scientific floats, empty fields; '
+RULE = ('two-step chains (10 hidden-state preparations x 21 table functions x 12 lazily read formats); registry of 98 public functions x generated arguments (text numbers with -, +, scientific floats, empty fields; '
         'intervals; sequences; tables; genomic data) in four memory layouts (fresh, row-slice view, column-slice view, '
         'field of a file chunk); every lazily read format with all fields inspected; plus one static case per '
         'in-place-writing site.  non-trivial = the call returned without exception and the arguments reach at least '
@@ -1850,12 +1856,12 @@ def _blocks(lst, full=()):
 
 
 def _case_term(kind, site=0, cow=False, target=0, before=(), after=(), lb=b'', la=b'', r1=b'', r2=b'', wr=b'', wg=b'',
-               npar=0, prog=(), flags=(), full=()):
+               npar=0, prog=(), prog2=(), flags=(), full=()):
     return ('{| k_kind := %s; k_site := %s; k_cow := %s; k_target := %s; k_before := %s; k_after := %s; '
             'k_log_before := %s; k_log_after := %s; k_res1 := %s; k_res2 := %s; k_w_ref := %s; k_w_got := %s; '
-            'k_np := %s; k_prog := %s; k_flags := %s |}' % (
+            'k_np := %s; k_prog := %s; k_prog2 := %s; k_flags := %s |}' % (
                 cz(kind), cz(site), cbool(cow), cz(target), _blocks(before, full), _blocks(after, full), hx(lb), hx(la), hx(r1), hx(r2),
-                hx(_rep(wr)), hx(_rep(wg)), cz(npar), prog_to_coq(list(prog)), clist([cbool(f) for f in flags], 'bool')))
+                hx(_rep(wr)), hx(_rep(wg)), cz(npar), prog_to_coq(list(prog)), prog_to_coq(list(prog2)), clist([cbool(f) for f in flags], 'bool')))
 
 
 def to_coq(case, o):
@@ -1880,10 +1886,35 @@ def to_coq(case, o):
         prog = [tuple(i) if not isinstance(i, tuple) else i for i in o['prog']]
         if not known:
             prog = [('W', 0)]                                           # relied on an unprobed class: fail closed
-        return _case_term(2, site=case['sid'], npar=o['np'], prog=prog)
+        return _case_term(2, site=case['sid'], npar=o['np'], prog=prog, prog2=_translator_extract(case['sid']))
     if k == 'probe':
         return _case_term(3, flags=[bool(o['flags'].get(n, False)) for n in PROBE_NAMES])
     raise ValueError(k)
+
+
+_TX = {}
+
+
+def _translator_extract(sid):
+    """The site extracted again in THIS (main) process through the translator's code path: same tree, same function as
+    translate/gen_c20.py.  Anything going wrong gives a program no checker accepts."""
+    if sid not in _TX:
+        try:
+            import sys
+            from harness import lib
+            real = os.path.realpath(lib.REPO)
+            if real not in sys.path[:1]:
+                sys.path.insert(0, real)
+            import bionumpy
+            if not os.path.realpath(bionumpy.__file__).startswith(real + os.sep):
+                raise ImportError('bionumpy imported from %s' % bionumpy.__file__)
+            e = extract_site(sid)
+            if any(p not in PROBE_NAMES for p in e['probes']):
+                raise RuntimeError('unprobed class')
+            _TX[sid] = [tuple(i) for i in e['prog']]
+        except BaseException:
+            _TX[sid] = [('W', 0)]
+    return _TX[sid]
 
 
 def nontrivial(case, o):
